@@ -104,13 +104,82 @@ def build(spec):
             continue
         t, c = qubits_value(op["t"], op.get("tk")), qubits_value(op["c"], op.get("ck"))
         k = qubits_value(op.get("k"), op.get("kk"))
-        if op.get("raw"):
+        cvkw = {"control_value": op["cv"]} if "cv" in op else {}
+        form = op.get("f") or ("raw" if op.get("raw") else "name")
+        if form == "raw":        # generic Gate object carrying a name
             qc.add_gate(Gate(op["g"], targets=t, controls=c, arg_value=py_value(op["a"]),
-                             classical_controls=k, classical_control_value=op.get("kv")))
-        else:
+                             classical_controls=k, classical_control_value=op.get("kv"), **cvkw))
+        elif form == "name":     # add_gate(name, ...): the library builds the object (and passes name=...)
             qc.add_gate(op["g"], targets=t, controls=c, arg_value=py_value(op["a"]),
-                        classical_controls=k, classical_control_value=op.get("kv"))
+                        classical_controls=k, classical_control_value=op.get("kv"), **cvkw)
+        elif form == "cls":      # instance of the library class / partial registered under the name, no `name=` given
+            from qutip_qip.operations import gateclass
+            kw = {"targets": t}
+            if c is not None:
+                kw["controls"] = c
+            if op["a"] is not None:
+                kw["arg_value"] = py_value(op["a"])
+            if k is not None:
+                kw.update(classical_controls=k, classical_control_value=op.get("kv"))
+            qc.add_gate(gateclass.GATE_CLASS_MAP[op["g"]](**kw, **cvkw))
+        elif form == "cg":       # ControlledGate(controls, targets, control_value, target_gate=<library class>)
+            from qutip_qip.operations import gateclass
+            kw = {}
+            if op["a"] is not None:
+                kw["arg_value"] = py_value(op["a"])
+            if op.get("nm") is not None:
+                kw["name"] = op["nm"]
+            qc.add_gate(gateclass.ControlledGate(controls=c, targets=t, control_value=op.get("cv"),
+                                                 target_gate=getattr(gateclass, op["tg"]), **kw))
+        else:
+            raise ValueError(form)
     return qc
+
+
+def plain(spec):
+    """the same circuit with its qubit arguments given as plain lists (the container type is not part of the
+    circuit's meaning; the simulator has its own requirements on it)"""
+    return {**spec, "ops": [{k: v for k, v in op.items() if k not in ("tk", "ck", "kk")} for op in spec["ops"]]}
+
+
+def _int_or_none(v):
+    import numbers
+    return int(v) if isinstance(v, numbers.Integral) and not isinstance(v, bool) and v >= 0 else None
+
+
+def exporter_view(spec):
+    """What the exporter reads of every gate OBJECT of the built circuit: its `name` and its `control_value` (besides
+    targets / controls / arg_value / classical_controls, which the objects store as given).  Returns the spec with
+    `g` := the object's name, `cv` := the object's control_value, and for the object forms (`cls`, `cg`) `t` / `c` :=
+    the object's targets / controls.  A circuit that cannot be built is returned unchanged."""
+    try:
+        with warnings.catch_warnings():
+            warnings.simplefilter("ignore")
+            qc = build(plain(spec))
+    except Exception:
+        return spec
+    ops = []
+    for op, g in zip(spec["ops"], qc.gates):
+        if "m" in op:
+            ops.append(op)
+            continue
+        o = dict(op, g=g.name, cv=_int_or_none(getattr(g, "control_value", None)))
+        if getattr(g, "control_value", None) is not None and o["cv"] is None:
+            o["cv"] = -1        # something that is no non-negative integer: never "all control qubits 1"
+        if op.get("f") in ("cls", "cg"):
+            try:
+                o["t"] = None if g.targets is None else [int(x) for x in g.targets]
+                o["c"] = None if g.controls is None else [int(x) for x in g.controls]
+            except Exception:
+                pass
+        ops.append(o)
+    return {**spec, "ops": ops}
+
+
+def cv_all_ones(op):
+    """no control_value, or controls and control_value = 2**len(controls)-1"""
+    cv = op.get("cv")
+    return cv is None or (bool(op.get("c")) and cv == 2 ** len(op["c"]) - 1)
 
 
 _TREE = {}
@@ -127,9 +196,11 @@ def tree_tables():
             e = qasm_tables.export_tables()
             names = {k for k, _ in e["name_map"]} | {k for k, _ in e["defns"]}
             _TREE[key] = {"names": names, "crash": [n for n in e["resolvable"] if n not in names],
-                          "containers": e["qubit_containers"], "cctrl_len": e["cctrl_len"]}
+                          "containers": e["qubit_containers"], "cctrl_len": e["cctrl_len"],
+                          "cv_checked": e["cv_checked"]}
         except Exception:
-            _TREE[key] = {"names": set(SHAPE) | set(LATE_SHAPE), "crash": [], "containers": True, "cctrl_len": True}
+            _TREE[key] = {"names": set(SHAPE) | set(LATE_SHAPE), "crash": [], "containers": True, "cctrl_len": True,
+                          "cv_checked": True}
     return _TREE[key]
 
 
@@ -237,13 +308,16 @@ def enc_arg(a):
 
 
 def enc_circuit(spec):
+    """the model's input: the fields the exporter reads of each gate OBJECT (`exporter_view`)"""
     ops = []
-    for op in spec["ops"]:
+    for op in exporter_view(spec)["ops"]:
         if "m" in op:
             ops.append("m:%s:%s" % (enc_idx(op["m"]), "N" if op["s"] is None else str(op["s"])))
         else:
-            ops.append("g:%s:%s:%s:%s:%s" % (op["g"], enc_idx(op["t"]), enc_idx(op["c"]), enc_arg(op["a"]),
-                                             enc_idx(op.get("k"))))
+            cv = op.get("cv")
+            ops.append("g:%s:%s:%s:%s:%s:%s" % (op["g"], enc_idx(op["t"]), enc_idx(op["c"]), enc_arg(op["a"]),
+                                                enc_idx(op.get("k")),
+                                                "N" if cv is None else str(cv) if cv >= 0 else "99999"))
     return "export n=%d c=%d ops=%s" % (spec["N"], spec["c"], ";".join(ops))
 
 
@@ -400,6 +474,61 @@ def qubit_kind_specs(rng, names=None):
     return out
 
 
+CG_TARGETS = ["X", "Y", "Z", "SNOT", "S", "T", "SQRTNOT", "RX", "RY", "RZ", "PHASEGATE", "SWAP", "ISWAP"]
+CG_NAMES = {("X", 1): ["CNOT", "CX"], ("X", 2): ["TOFFOLI"], ("Z", 1): ["CSIGN", "CZ"], ("Y", 1): ["CY"],
+            ("SWAP", 1): ["FREDKIN"], ("PHASEGATE", 1): ["CPHASE"], ("SNOT", 1): ["CH"]}
+
+
+def object_form_specs(rng):
+    """the OBJECT-FORM dimension of an exported gate.  The same operation can reach the exporter as
+    (a) `add_gate(name, …)`, (b) a generic `Gate(name, …)`, (c) an instance of the library class / partial registered
+    under the name (no `name=`), (d) `ControlledGate(controls, targets, control_value, target_gate=<library class>)`
+    with 1-2 controls, EVERY control value, without a name / named "C"+target / named like the library gate;
+    (a)-(c) also with every `control_value` (the `_OneControlledGate` partials with control_value=0 included).
+    Each is judged by the property: refused, or valid text with the object's unitary."""
+    from qutip_qip.operations import gateclass
+    out = []
+
+    def arg_for(ps):
+        return None if ps is None else {"s": rng.choice([0.7, -1.3, 2.1, 0.5]), "np": False} if ps == "s" else \
+            {"k": "list", "v": [0.3, 0.4] if ps == "v2" else [0.3, 0.4, 0.5]}
+
+    def put(N, op):
+        out.append({"N": N, "c": 0, "ops": [op]})
+        if rng.random() < 0.3:
+            out.append({"N": N, "c": 0, "ops": [make_gate(rng, "SNOT", N, SHAPE), dict(op), make_gate(rng, "RZ", N, SHAPE)]})
+
+    # (a)-(c): every library name, its own shape, with and without control_value
+    for name in library_names():
+        shape = shape_of(name) or NONEXP_SHAPE.get(name) or discover_shape(name)
+        if shape is None:
+            continue
+        nc, nt, ps = shape
+        N = max(2, nc + nt)
+        qs = list(range(N))
+        rng.shuffle(qs)
+        base = {"g": name, "t": qs[nc:nc + nt], "c": qs[:nc] or None, "a": arg_for(ps), "k": None}
+        forms = [{}, {"raw": True}] + ([{"f": "cls"}] if name in gateclass.GATE_CLASS_MAP else [])
+        for f in forms:
+            put(N, dict(base, **f))
+            for cv in (range(2 ** nc) if nc else [0, 1]):
+                put(N, dict(base, cv=cv, **f))
+    # (d): ControlledGate over every library class
+    for tg in CG_TARGETS:
+        if not hasattr(gateclass, tg):
+            continue
+        _, nt, ps = SHAPE.get(tg) or NONEXP_SHAPE[tg]
+        for nc in (1, 2):
+            N = nc + nt
+            for cv in range(2 ** nc):
+                for nm in [None, "C" + tg] + CG_NAMES.get((tg, nc), []):
+                    qs = list(range(N))
+                    rng.shuffle(qs)
+                    put(N, {"g": nm or "ControlledGate", "f": "cg", "tg": tg, "nm": nm, "cv": cv, "t": qs[nc:],
+                            "c": qs[:nc], "a": arg_for(ps), "k": None})
+    return out
+
+
 # pairs / triples of DIFFERENT angles that agree in their first six significant digits, or are large: the importer
 # caches the unitary of a user gate under the text of the call, so a re-imported circuit is only right if different
 # angles give different keys
@@ -486,9 +615,11 @@ def conditioned_specs(rng, names=None):
     return out
 
 
-def in_class(spec):
+def in_class(spec, ignore_cv=False):
     """the class of the property's positive part: exportable gates of the right shape on distinct
-    in-range qubits with numeric parameters, measurements into existing classical bits"""
+    in-range qubits with numeric parameters, no control_value other than "all control qubits 1", measurements into
+    existing classical bits.  `spec` is the exporter's view of the circuit (`exporter_view`: names and control values
+    of the built objects)."""
     N = spec["N"]
     for op in spec["ops"]:
         if "m" in op:
@@ -496,6 +627,8 @@ def in_class(spec):
                 return False
             continue
         if not exportable(op["g"]):
+            return False
+        if not ignore_cv and not cv_all_ones(op):
             return False
         k = op.get("k")
         if k:       # a classical condition: distinct bits of the register, a value that fits them (or the default)
@@ -522,6 +655,21 @@ def conditioned(spec):
     """some gate carries a (non-empty) classical condition: the exporter may refuse the circuit; what it does export
     must act like the circuit under EVERY classical state"""
     return any("g" in op and op.get("k") for op in spec["ops"])
+
+
+def library_named(spec):
+    """some gate is an object whose NAME the library chose (instance of a library class / partial, or a ControlledGate
+    without `name=`): such an object is well formed whenever its constructor accepts it — what is exported for it
+    must be valid and denote its unitary, whatever the shape table says about the name"""
+    return any("g" in op and (op.get("f") == "cls" or (op.get("f") == "cg" and op.get("nm") is None))
+               for op in spec["ops"])
+
+
+def user_named_other_cv(spec):
+    """some gate carries a NAME given by the user (add_gate(name), Gate(name), ControlledGate(name=...)) together with
+    a control_value other than "all control qubits 1" — recorded finding C10-7 (the exporter reads the name alone)"""
+    return any("g" in op and "cv" in op and not cv_all_ones(op) and
+               not (op.get("f") == "cls" or (op.get("f") == "cg" and op.get("nm") is None)) for op in spec["ops"])
 
 
 def has_nonexportable(spec):
@@ -593,14 +741,17 @@ def property_fails(spec, lenient_measure=False):
     if st == "attr" or st.startswith("other:"):
         # not a refusal: the export path itself is broken (e.g. a method that does not exist)
         return True, "export crashes instead of refusing (%s)" % st
-    if has_nonexportable(spec):
+    # the circuit as the exporter sees it: names and control values of the built gate OBJECTS
+    view = exporter_view(spec)
+    if has_nonexportable(view):
         return (st == "ok"), ("non-exportable gate exported" if st == "ok" else "refused (%s)" % st)
     cond = conditioned(spec)
     if st != "ok":
-        if in_class(spec) and not cond:
+        if in_class(view) and not cond:
             return True, "circuit of exportable gates refused (%s)" % st
         return False, "refused (%s)" % st
-    if not in_class(spec):
+    other_cv = any("g" in op and not cv_all_ones(op) for op in view["ops"])
+    if not in_class(view) and not library_named(spec) and not (other_cv and in_class(view, ignore_cv=True)):
         return False, "outside the class (malformed gate); exported"
     text = "\n".join(lines) + "\n"
     chk = text
@@ -614,8 +765,19 @@ def property_fails(spec, lenient_measure=False):
         return True, "exported text is not valid OpenQASM 2.0 (%s); text=%r" % (e, text[-200:])
     # the circuit's own unitary is computed from the same circuit with its qubit arguments given as plain lists (the
     # container type is not part of the circuit's meaning; the simulator has its own requirements on it)
-    qc = build({**spec, "ops": [{k: v for k, v in op.items() if k not in ("tk", "ck", "kk")} for op in spec["ops"]]})
+    qc = build(plain(spec))
     N = spec["N"]
+    try:
+        for w in lib_segments(qc):
+            if not isinstance(w, tuple):
+                lib_unitary(qc, w, tuple([0] * spec["c"]))
+    except Exception as e:
+        if other_cv:
+            return True, ("exported as the gate of its name although the gate carries another control_value and the "
+                          "library refuses to compute its matrix (%s: %s)" % (type(e).__name__, e))
+        if not in_class(view):
+            return False, "outside the class (the library computes no unitary for the circuit); exported"
+        raise
     if std.nq != N or (spec["c"] and std.nc != spec["c"]):
         return True, "register sizes differ"
     want = lib_segments(qc)
@@ -663,6 +825,10 @@ class C10(PropertyCheck):
         "QipVerif.C10.export_den_pynum_partial",
         "QipVerif.C10.export_refuses",
         "QipVerif.C10.export_refuses_classical",
+        "QipVerif.C10.export_ignores_control_value",
+        "QipVerif.C10.export_refuses_control_value",
+        "QipVerif.C10.export_control_value_counterexample",
+        "QipVerif.C10.export_control_value_repaired",
         "QipVerif.C10.definitions_sound",
         "QipVerif.C10.export_den",
         "QipVerif.C10.export_den_G",
@@ -717,7 +883,13 @@ class C10(PropertyCheck):
         "the shape `isPyOut` (digits | digits.digits*[e[+-]digits] | digits e[+-]digits) for finite ints/floats",
         "py/props/qasm_tables.py (AST extraction of name maps, definition strings, format strings, the literal bodies of "
         "_qasm_str's printing branch and of _qasm_real)",
-        "py/props/c10.py (harness, exception classes mapped to {notImpl, attr, type, index, value})",
+        "py/props/c10.py (harness, exception classes mapped to {notImpl, attr, type, index, value}; `exporter_view`: the "
+        "projection of a built gate OBJECT to the six fields of the model's Export.Gate — name, targets, controls, "
+        "arg_value, classical_controls, control_value — which is everything Gate._to_qasm / _qasm_str read of it; the "
+        "class of the object and its target_gate are not part of the model)",
+        "the meaning of a gate in the Lean theorems is the documented matrix of its NAME; objects whose control_value is "
+        "not 'all control qubits 1' are outside the class of the positive theorems (GoodGate.ctrlOnes) and are judged by "
+        "the oracle against the library's own unitary of the object",
     ]
     assumptions = ["documented matrices of the library gates as restated in Lemmas/QasmMat.lean (C09 proves them for the code)"]
     rule = ("case = circuit (N<=5, gate list with names, controls, targets, parameter values and container types, "
@@ -838,6 +1010,9 @@ class C10(PropertyCheck):
         specs += conditioned_specs(rng)
         # one parametrised gate several times with nearly equal / large angles (cache keys of the re-import)
         specs += repeated_param_specs(rng)
+        # the object form of a gate: by name, generic Gate, library class / partial, ControlledGate over every library
+        # class with every control value; the model is given what the exporter reads of the built OBJECT
+        specs += object_form_specs(rng)
         # container / integer type of controls and targets (only a tree whose `_qasm_str` normalises them is given
         # anything but lists of Python ints: the model's qubit lists stand for exactly those on other trees)
         if tree_tables()["containers"]:
@@ -932,6 +1107,8 @@ class C10(PropertyCheck):
         `_qasm_real` only — theorem export_exponent_counterexample)"""
         if any(op.get("g") in tree_tables()["crash"] for op in spec["ops"]):
             return False        # recorded finding: the export path of this name calls a method that does not exist
+        if not tree_tables()["cv_checked"] and user_named_other_cv(spec):
+            return False        # recorded finding C10-7: Gate._to_qasm reads the name alone (tree without the test)
         return (not bare_excluded) or strict_number_texts(spec)
 
     def _search_stream(self, ctx, full=False):
@@ -949,6 +1126,10 @@ class C10(PropertyCheck):
         for g in NON_EXPORTABLE:
             yield {"N": 3, "c": 0, "ops": [make_gate(rng, g, 3, NONEXP_SHAPE)]}
         tt = tree_tables()
+        of = object_form_specs(rng)
+        rng.shuffle(of)
+        for spec in of[: (len(of) if (ctx.thorough or full) else 160)]:
+            yield spec
         rp = repeated_param_specs(rng)
         for spec in rp[: (len(rp) if (ctx.thorough or full) else 50)]:
             yield spec
